@@ -33,7 +33,6 @@ var rBounds = &Rule{
 // boundsTabled lists index sites accepted with a reason (construct → reason).
 var boundsTabled = map[string]string{
 	"errbase.(*state).formatEntries: s.entries[len(s.entries) - 1]": "formatEntries is only called right after formatRecursive, which appends one entry on every path before returning",
-	"withstack.init: prefix[len(prefix) - 1]":                       "elements of build.Default.SrcDirs() are filepath.Join(root, \"src\"), never empty",
 }
 
 type lenFacts struct {
@@ -734,6 +733,10 @@ func boundsOneBody(c *core.Ctx, bf *boundsFn, all []*boundsFn, tabledSeen map[st
 			c.Ob(construct, ie.Pos(), true, "tabled: "+reason)
 			continue
 		}
+		if srcDirsElement(info, parent, ie) {
+			c.Ob(construct, ie.Pos(), true, "the indexed string is an element of go/build.Default.SrcDirs(): filepath.Join(root, \"src\"), never empty")
+			continue
+		}
 		if xp == "" {
 			c.Fail(construct, ie.Pos(), "index with "+scope+" on a base that is not a plain access path: no length guard can be matched")
 			continue
@@ -938,6 +941,40 @@ func rangeDefining(info *types.Info, parent map[ast.Node]ast.Node, at ast.Node, 
 		}
 	}
 	return nil
+}
+
+// srcDirsElement: the indexed value is the value variable of a range over (*go/build.Context).SrcDirs(),
+// wherever that loop lives (a structural exception instead of one keyed by the enclosing function).
+func srcDirsElement(info *types.Info, parent map[ast.Node]ast.Node, ie *ast.IndexExpr) bool {
+	id, ok := ast.Unparen(ie.X).(*ast.Ident)
+	if !ok {
+		return false
+	}
+	obj := info.Uses[id]
+	if obj == nil {
+		return false
+	}
+	for n := parent[ie]; n != nil; n = parent[n] {
+		rs, ok := n.(*ast.RangeStmt)
+		if !ok {
+			continue
+		}
+		v, ok := rs.Value.(*ast.Ident)
+		if !ok || (info.Defs[v] != obj && info.Uses[v] != obj) {
+			continue
+		}
+		call, ok := ast.Unparen(rs.X).(*ast.CallExpr)
+		if !ok {
+			return false
+		}
+		sel, ok := call.Fun.(*ast.SelectorExpr)
+		if !ok {
+			return false
+		}
+		f, ok := info.Uses[sel.Sel].(*types.Func)
+		return ok && f.Name() == "SrcDirs" && f.Pkg() != nil && f.Pkg().Path() == "go/build"
+	}
+	return false
 }
 
 var _ = sort.Strings
